@@ -94,14 +94,19 @@ structure BF where
   par  : List (Option (Nat × Bool))
   upd  : Bool
 
+/-- `y < dist[v]` with `none` = inf -/
+def improves (dv : Option Int) (y : Int) : Bool :=
+  match dv with
+  | none => true
+  | some d => decide (y < d)
+
 def tryRelax (st : BF) (u v : Nat) (c : Int) (tag : Nat × Bool) : BF :=
   match st.dist.getD u none with
   | none => st
   | some du =>
-    let better := match st.dist.getD v none with
-      | none => true
-      | some dv => decide (du + c < dv)
-    if better then ⟨st.dist.set v (some (du + c)), st.par.set v (some tag), true⟩ else st
+    if improves (st.dist.getD v none) (du + c) then
+      ⟨st.dist.set v (some (du + c)), st.par.set v (some tag), true⟩
+    else st
 
 /-- the test `residual > 0 and dist[u] + cost[u][v] < dist[v]` for the residual arcs `u → v`
 that arc `i` contributes -/
@@ -110,11 +115,14 @@ def relaxArc (x : List Int) (u v : Nat) (st : BF) (i : Nat) : BF :=
   let st := if a.src = u ∧ a.tgt = v ∧ fl x i < a.cap then tryRelax st u v a.cost (i, true) else st
   if a.tgt = u ∧ a.src = v ∧ 0 < fl x i then tryRelax st u v (- a.cost) (i, false) else st
 
+/-- the iteration space of one sweep: `for u in nodes: for v in nodes:` and, inside, the arcs that
+can contribute a residual arc `u → v`, in this order -/
+def triples : List (Nat × Nat × Nat) :=
+  (List.range I.n).flatMap fun u => (List.range I.n).flatMap fun v => (List.range I.m).map fun i => (u, v, i)
+
 /-- one `for u in nodes: for v in nodes:` sweep -/
 def sweep (x : List Int) (st : BF) : BF :=
-  (List.range I.n).foldl (fun st u =>
-    (List.range I.n).foldl (fun st v =>
-      (List.range I.m).foldl (I.relaxArc x u v) st) st) st
+  I.triples.foldl (fun st t => I.relaxArc x t.1 t.2.1 st t.2.2) st
 
 /-- `for _ in range(k): … if not updated: break` -/
 def rounds (x : List Int) : Nat → BF → BF
